@@ -1,6 +1,6 @@
 CONSTANTS
 Mode = "opcodes"
-MaxItems = 2
+MaxItems = 3
 Vals = {0, 1, 127, 128, 255, 256, 16383, 16384, 2097151, 2097152, 268435455, 268435456, 2147483647}
 Pads = {1}
 MaxPads = 0
@@ -8,5 +8,5 @@ MaxLabels = 0
 PoolMax = 2097152
 INIT Init
 NEXT Next
-INVARIANTS RoundTrip OffsetsIncrease LabelTable JumpTables LinesOK EmitRow
+INVARIANTS TheoremAndRow
 CHECK_DEADLOCK FALSE
